@@ -1188,7 +1188,7 @@ class ASTBuilder:
             mod: Optional[ast.Module] = None
             try:
                 mod = parseFile(path)
-            except (SyntaxError, ValueError, RecursionError) as e:
+            except (SyntaxError, ValueError, RecursionError, MemoryError) as e:
                 ctx.report(f"cannot parse file, {e}")
 
             self.ast_cache[path] = mod
@@ -1198,7 +1198,7 @@ class ASTBuilder:
         mod = None
         try:
             mod = _parse(py_string)
-        except (SyntaxError, ValueError, RecursionError):
+        except (SyntaxError, ValueError, RecursionError, MemoryError):
             ctx.report("cannot parse string")
         return mod
 
